@@ -54,3 +54,10 @@ Theorem C07_memory_commit : forall sortf info base maxshare req order fuel c k r
              cap_capacity c' = cap_capacity c - k.
 Proof. exact mem_commit_lowers. Qed.
 Print Assumptions C07_memory_commit.
+
+(* and the capacity the manager reports for an offered node is the plugin's *)
+Theorem C07_manager_capacity : forall (caps : list (string * capinfo)) (n : string) (i : fndc),
+  Merge.lookup n (fst (manager_capacity caps)) = Some i ->
+  exists c, In (n, c) caps /\ 0 < cap_capacity c /\ n_cap i = cap_capacity c.
+Proof. exact manager_reports_plugin_capacity. Qed.
+Print Assumptions C07_manager_capacity.
